@@ -12,7 +12,7 @@ if "--also" in sys.argv: also = sys.argv[sys.argv.index("--also") + 1].split(","
 md = os.path.join(wt, "mutants")
 diff = os.path.join(md, "m%s.diff" % k)
 demo = (glob.glob(os.path.join(md, "m%s_demo.c" % k)) + glob.glob(os.path.join(md, "m%s_demo.cpp" % k)))[0]
-def sh(cmd, **kw): return subprocess.run(cmd, shell=True, capture_output=True, text=True, **kw)
+def sh(cmd, **kw): return subprocess.run(cmd, shell=True, capture_output=True, text=True, errors="replace", **kw)
 def build():
     r = sh("cmake -G Ninja -S %s -B %s/_build >/dev/null 2>&1 && cmake --build %s/_build 2>&1 | tail -3" % (wt, wt, wt))
     return r.returncode == 0 and "FAILED" not in r.stdout and "error" not in r.stdout.lower(), r.stdout
@@ -23,7 +23,7 @@ def run_demo():
     exe = os.path.join(wt, "_build", "demo_%s" % k)
     c = sh("%s %s -o %s %s %s -lm" % ("c++ -std=gnu++14" if cxx else "cc", inc, exe, demo, libs))
     if c.returncode != 0: return None, "demo does not compile: " + c.stderr[-600:]
-    try: r = subprocess.run([exe], capture_output=True, text=True, timeout=60, cwd=wt); return r.returncode, (r.stdout + r.stderr)[-400:]
+    try: r = subprocess.run([exe], capture_output=True, text=True, errors="replace", timeout=60, cwd=wt); return r.returncode, (r.stdout + r.stderr)[-400:]
     except subprocess.TimeoutExpired: return -99, "timeout (hang)"
 log = {}
 sh("git -C %s checkout -- ." % wt)
